@@ -114,7 +114,10 @@ func (c *BaseLayout) PutBuffer(buf *bytes.Buffer) {
 func (c *BaseLayout) GetFileLine(e *Event) string {
 	fileLine := e.File + ":" + strconv.Itoa(e.Line)
 	if n := len(fileLine); n > c.FileLineLength {
-		fileLine = "..." + fileLine[n-c.FileLineLength+3:]
+		// keep the last FileLineLength-3 bytes; nothing but the dots
+		// fits when the configured length is smaller than three
+		keep := max(c.FileLineLength-3, 0)
+		fileLine = "..." + fileLine[n-keep:]
 	}
 	return fileLine
 }
